@@ -1,4 +1,6 @@
-(* C10 - witnesses for the places where the pinned code violates the property (the model reproduces them) *)
+(* C10 - witness for the place where the code still violates the property (the model reproduces it).
+   The witnesses for unexported modules, inverted limits of array elements and the stale name map are gone with the
+   repairs 68acea7, 6fe53e9, 8235152: the positive theorems are now unconditional. *)
 From Coq Require Import String.
 From Coq Require Import ZArith NArith Bool List.
 Import ListNotations.
@@ -18,20 +20,12 @@ Definition descr : str * cval := (k_description, CRaw (PStr (s_ "a module"))).
 
 (* Mod('m', C1, 'a module', p1=100) *)
 Definition cfg_oor : cfg := [descr; (s_ "p1", CDict [(k_value, PInt 100)])].
-(* Mod('m', C1, 'a module', p1=5, export=False) *)
-Definition cfg_unexported : cfg := [descr; (s_ "p1", CDict [(k_value, PInt 5)]); (k_export, CDict [(k_value, PBool false)])].
-(* Mod('m', C1, 'a module', p3=Param(min=6, max=2)) *)
-Definition cfg_inverted : cfg := [descr; (s_ "p3", CDict [(k_min, PInt 6); (k_max, PInt 2)])].
-(* Mod('m', C1, 'a module', p1=Param(export='_alias'), p2=Param(export=False)) *)
-Definition cfg_export : cfg :=
-  [descr; (s_ "p1", CDict [(k_export, PStr (s_ "_alias"))]); (s_ "p2", CDict [(k_export, PBool false)])].
-
 Definition nilb {A} (l : list A) : bool := match l with [] => true | _ => false end.
 
 (* a writeDict entry of a parameter with a driver write method, in a module that has a poll thread, whose value the
    write method never receives *)
 Definition never_handed (i : inst) : bool :=
-  mexport (i_mvals i) && has_thread i &&
+  has_thread i &&
   existsb (fun nv => match find_param (fst nv) (i_params i) with
                      | Some p => p_wfunc p && nilb (writes_for (fst nv) (startup i))
                      | None => false end) (i_write i).
@@ -45,23 +39,3 @@ Ltac witness C c :=
 
 Theorem refuted_out_of_range_value_not_written : exists C c i, mod_init C c = Created i /\ never_handed i = true.
 Proof. witness C1 cfg_oor. Qed.
-
-Definition unexported_not_started (i : inst) : bool :=
-  negb (mexport (i_mvals i)) && negb (nilb (i_write i)) && nilb (startup i).
-Theorem refuted_unexported_module_values_not_written :
-  exists C c i, mod_init C c = Created i /\ unexported_not_started i = true.
-Proof. witness C1 cfg_unexported. Qed.
-
-Definition has_inverted_array (i : inst) : bool :=
-  existsb (fun p => match p_dt p with Some (TArray e _ _) => leaf_inverted e | _ => false end) (i_params i).
-Theorem refuted_inverted_limits_array_member : exists C c i, mod_init C c = Created i /\ has_inverted_array i = true.
-Proof. witness C1 cfg_inverted. Qed.
-
-(* the export name shown in the description is not in the name map, or a hidden parameter still is *)
-Definition name_map_stale (i : inst) : bool :=
-  existsb (fun p => match p_export p with
-                    | XName s => negb (mem_str s (map fst (i_names i)))
-                    | XFalse => mem_str (p_name p) (map snd (i_names i))
-                    | XTrue => false end) (i_params i).
-Theorem refuted_export_override_name_map_stale : exists C c i, mod_init C c = Created i /\ name_map_stale i = true.
-Proof. witness C1 cfg_export. Qed.
